@@ -508,8 +508,9 @@ func runC18(c *fw.Ctx) {
 
 func init() {
 	fw.Register(&fw.Prop{
-		ID:    "C18",
-		Level: "exploration",
+		ID:           "C18",
+		EvalCounters: []string{"eval_AddCoin", "eval_MinusCoin", "eval_MultCoin", "eval_Min", "eval_AddInt64", "eval_MinusInt64", "eval_DistributeCoin", "eval_Int64", "eval_Int64ToCoin", "eval_Float64", "eval_Float64ToCoin", "eval_MultFloat64", "eval_ParseZCN", "eval_ToZCN"},
+		Level:        "exploration",
 		Rule: "cases: (1) every row of the exhaustive B x B table, B = boundary set of ~290 uint64 values (0..5, 2^k-1/2^k/2^k+1, sqrt and max neighbourhoods, 10^k±1), each pair through AddCoin/MinusCoin/MultCoin/Min/AddInt64/MinusInt64/DistributeCoin " +
 			"(second operand also reinterpreted as int64) plus unary conversions, ToZCN/ParseZCN round trip and MultFloat64 against the float set F; (2) pairs whose true product is a non-zero multiple of 2^64; (3) random pairs biased to boundaries; " +
 			"(4) random/boundary floats through Float64ToCoin and MultFloat64; (5) decimal amounts with 1..17 significant digits through ParseZCN and round trips. Oracle: math/big exact arithmetic, IEEE product + truncation for float helpers, " +
